@@ -240,11 +240,24 @@ fn gen_book_case(r: &mut Rng, max_events: u64, adversarial: bool) -> (Vec<Ev>, u
         } else {
             seq + 1 + r.below(3)
         };
-        let time = if r.chance(1, 5) {
+        let mut time = if r.chance(1, 5) {
             None
         } else {
             Some(1_700_000_000_000 + r.below(100_000) as i64)
         };
+        // venues that do not number their deltas / several deltas in one engine millisecond:
+        // consecutive events sharing the sequence and / or the engine time of their predecessor
+        if let Some(prev) = evs.last() {
+            let prev: &Ev = prev;
+            if r.chance(if adversarial { 1 } else { 0 }, 3) || r.chance(1, 10) {
+                seq = prev.seq;
+                time = prev.time;
+            } else if r.chance(1, 10) {
+                time = prev.time;
+            } else if r.chance(1, 12) {
+                seq = prev.seq;
+            }
+        }
         let (bids, asks) = if snapshot {
             // snapshot: distinct prices per side; zero amounts rarely (adversarial only)
             let zn = if adversarial { 2 } else { 0 };
